@@ -272,6 +272,13 @@ func (conn *ssConn) readPackets() error {
 	rdLen, rdErr := conn.Conn.Read(buf[:])
 	conn.receiveBuffer.Write(buf[:rdLen])
 
+	if err := conn.decodePackets(); err != nil {
+		return err
+	}
+	return rdErr
+}
+
+func (conn *ssConn) decodePackets() error {
 	// Process incoming packets incrementally.  conn.receiveState stores
 	// the results of partial processing.
 	for conn.receiveBuffer.Len() > 0 {
@@ -366,7 +373,7 @@ func (conn *ssConn) readPackets() error {
 		conn.receiveState.totalLen = 0
 		conn.receiveState.payloadLen = 0
 	}
-	return rdErr
+	return nil
 }
 
 func (conn *ssConn) clientHandshake(kB *ssSharedSecret, sessionKey *uniformdh.PrivateKey) error {
@@ -444,8 +451,18 @@ handshakeUDH:
 		// Ok, done processing the handshake, discard the response, and do the
 		// key derivation based off the calculated shared secret.
 		_ = conn.receiveBuffer.Next(n)
-		err = conn.initCrypto(seed)
-		return err
+		if err = conn.initCrypto(seed); err != nil {
+			return err
+		}
+
+		// The server can and will send packets right behind its response,
+		// and Read() only decodes after consuming more data off the network,
+		// so process what is already buffered now or it would sit there
+		// until (and unless) the peer happens to send something else.
+		if conn.receiveBuffer.Len() > 0 {
+			return conn.decodePackets()
+		}
+		return nil
 	}
 }
 
